@@ -584,7 +584,22 @@ pub fn c12(ctx: &mut Ctx) {
             continue;
         }
         // P: a complete paragraph without double quotes, ending in a terminator + blank line
-        let mut p = match r.below(10) {
+        // a compound written as two words, split at one place in P and at another in D (`note book` / `noteb ook`): whatever a
+        // rule concludes about the first pair must not leak into its verdict on the second
+        let compounds = ["notebook", "keyboard", "sunlight", "bookstore", "everyone", "somebody", "nowhere", "without", "cannot", "football", "homework", "airport", "bedroom", "weekend", "password",
+            "database", "software", "feedback", "anyone", "sometimes", "into", "however", "another", "outside", "themselves", "workflow", "something", "altogether"];
+        let split_pair = |w: &str, at: usize| -> String {
+            let c: Vec<char> = w.chars().collect();
+            format!("{} {}", c[..at].iter().collect::<String>(), c[at..].iter().collect::<String>())
+        };
+        let mut compound: Option<(&str, usize)> = None;
+        let mut p = match r.below(11) {
+            10 => {
+                let w = *r.pick(&compounds);
+                let at = r.range(1, w.len() - 1);
+                compound = Some((w, at));
+                format!("{} {} {}", r.pick_str(&["We found the", "They lost a", "Nobody saw the", "It went"]), split_pair(w, at), r.pick_str(&["there", "again today", "and left"]))
+            }
             9 => {
                 // many short flagged sentences, some flagged twice on the same characters (a lower-case `i` at the start)
                 let pool = ["i went home", "teh cat sat", "it is better then that", "i saw an apple and a apple", "the the end came", "she could of left", "i recieve mail", "there are alot of things", "i think its fine"];
@@ -631,7 +646,32 @@ pub fn c12(ctx: &mut Ctx) {
         let term = if p.ends_with(['.', '!', '?']) { "" } else { *r.pick(&[".", "!", "?"]) };
         let sep = *r.pick(&["\n\n", "\n\n", "\n\n\n"]);
         let p = format!("{p}{term}{sep}");
-        let d = match r.below(10) {
+        let moved_blank = |r: &mut Rng, t: &str| -> String {
+            // one blank of the text moved one or two characters to the left or right (`a note book` -> `a not ebook`)
+            let mut c: Vec<char> = t.chars().collect();
+            let blanks: Vec<usize> = (1..c.len().saturating_sub(1)).filter(|i| c[*i] == ' ' && c[*i - 1].is_alphabetic() && c[*i + 1].is_alphabetic()).collect();
+            if blanks.is_empty() {
+                return t.to_string();
+            }
+            let at = blanks[r.below(blanks.len())];
+            let by = r.range(1, 2) as isize * if r.chance(1, 2) { 1 } else { -1 };
+            let to = at as isize + by;
+            if to < 1 || to as usize >= c.len() - 1 || !(at.min(to as usize)..=at.max(to as usize)).all(|i| i == at || c[i].is_alphabetic()) {
+                return t.to_string();
+            }
+            c.remove(at);
+            c.insert(to as usize, ' ');
+            c.iter().collect()
+        };
+        let d_kind = if compound.is_some() && r.chance(3, 4) { 11 } else { r.below(11) };
+        let d = match d_kind {
+            11 => {
+                let (w, at) = compound.unwrap();
+                let other = (1..w.len()).filter(|x| *x != at).collect::<Vec<_>>();
+                let at2 = other[r.below(other.len())];
+                format!("{} {} {}.", r.pick_str(&["They kept the", "She sold a", "It was the"]), split_pair(w, at2), r.pick_str(&["here", "yesterday", "too"]))
+            }
+            10 => moved_blank(&mut r, p.trim_end()),
             9 => format!("We went to new york and and saw teh {} there. {}", r.pick_str(&corpus.vocab), r.pick(&corpus.sentences)),
             6 => p.trim_end().to_string(),
             7 => {
